@@ -16,6 +16,13 @@ func dumpDescribe(c *Ctx, spec string) {
 	}
 	fn := c.fn(spec[:i], spec[i+1:])
 	if fn == nil {
+		for _, f := range c.srcFuncs() {
+			if fname(f) == spec[i+1:] || fname(f) == spec[:i]+"."+spec[i+1:] {
+				fn = f
+			}
+		}
+	}
+	if fn == nil {
 		fmt.Println("not found")
 		return
 	}
